@@ -25,6 +25,21 @@ class HT {
     @tracked public qubit tq;
     public constructor() -> HT = default;
 }
+class HA {
+    @tracked public qubit[3] ta;
+    public constructor() -> HA = default;
+}
+class HD {
+    public qubit dq;
+    public constructor() -> HD = default;
+    public destructor() -> void {
+        h(this.dq);
+    }
+}
+class HS {
+    public static qubit sq;
+    public constructor() -> HS = default;
+}
 class H2 {
     public H1 inner;
     public qubit z;
@@ -127,6 +142,7 @@ def _init_helper_lines():
         "fms": _line_of(P, "\n    measure p;") + 1,
         "freset": _line_of(P, "\n    reset p;") + 1,
         "inner2": _line_of(P, "\n    h(p);") + 1,
+        "HD.dtor": _line_of(P, "        h(this.dq);"),
     })
 
 
@@ -142,7 +158,7 @@ def fmt_float(x):
     """Render a float32-exact value as a Bloch float literal (unary minus for negatives)."""
     s = repr(float(x))
     if "e" in s or "E" in s:
-        s = "%.10f" % x
+        s = ("%.40f" % x).rstrip("0")      # exact: the values used are dyadic
     if "." not in s:
         s += ".0"
     if s.startswith("-"):
@@ -167,12 +183,21 @@ PROFILES = {
                  misuse=0, alias=0, block=1, measure_reg=1),
     "flags": dict(gate=8, measure=6, reset=4, new=1, destroy=1, ifbit=0, loop=1, decl=1,
                   misuse=3, alias=0, block=0, measure_reg=2),
+    # misuse around index recycling: objects owning several qubits die, new declarations take the
+    # freed indices, one of them is measured, then touched again
+    "flags_recycle": dict(gate=4, measure=7, reset=2, new=4, destroy=5, ifbit=0, loop=0, decl=6,
+                          misuse=5, alias=0, block=1, measure_reg=1),
     "tracked": dict(gate=6, measure=6, reset=2, new=3, destroy=2, ifbit=1, loop=3, decl=2,
                     misuse=0, alias=0, block=4, measure_reg=2),
 }
 
+NEED = {"H1": 3, "HT": 1, "H2": 4, "HA": 3, "HD": 1}     # qubits owned by an instance
+REGFIELD = {"H1": ("qs", 2), "HA": ("ta", 3)}   # the qubit[] field of a class
+
 ANGLES = [0.5, -0.5, 1.5, 0.25, 3.0, -2.75, 0.125, 6.25, 0.0, 1.0, -1.0, 0.0078125, 100.5,
-          2.0, 0.75, -3.140625]
+          2.0, 0.75, -3.140625,
+          # tiny but not negligible: 2^-19, and float32(2*pi) whose half-angle sine is ~9e-8
+          1.9073486328125e-06, 6.2831854820251465]
 
 
 class Gen:
@@ -181,7 +206,7 @@ class Gen:
         self.p = profile
         self.w = PROFILES[profile]
         self.max_qubits = max_qubits
-        self.nq = 0            # qubits allocated so far (upper bound on simulator size)
+        self.nq = 1            # qubits allocated so far (upper bound on simulator size)
         self.uid = 0
         self.scopes = [dict(vars=[], regs=[], objs=[], bits=[], aliases=[])]
         self.has_ops = False
@@ -211,6 +236,7 @@ class Gen:
             for i in range(n):
                 form = self.r.choice("ckx")
                 out.append(("e", name, i, form))
+        out.append(("s", "HS", "sq"))       # the class-level qubit, allocated before main starts
         for name, cls in self.visible("objs"):
             if cls == "H1":
                 out.append(("f", name, "q"))
@@ -218,6 +244,11 @@ class Gen:
                 out.append(("fe", name, "qs", 1))
             elif cls == "HT":
                 out.append(("f", name, "tq"))
+            elif cls == "HA":
+                for i in range(3):
+                    out.append(("fe", name, "ta", i))
+            elif cls == "HD":
+                out.append(("f", name, "dq"))
             elif cls == "H2":
                 out.append(("f", name, "z"))
                 out.append(("ff", name, "inner", "q"))
@@ -231,6 +262,8 @@ class Gen:
             return ("r", q[1], q[2])
         if t == "ei":
             return ("r", q[1], "*")
+        if t == "s":
+            return ("s", q[1], q[2])
         if t == "f":
             return ("o", q[1], q[2])
         if t == "fe":
@@ -271,8 +304,10 @@ class Gen:
         return dict(k="decl", name=name, n=n, tracked=tracked)
 
     def stmt_new(self):
-        cls = self.r.choice(["H1", "H1", "H2", "HT"] if self.p != "tracked" else ["HT", "HT", "H1"])
-        need = {"H1": 3, "HT": 1, "H2": 4}[cls]
+        cls = self.r.choice(["H1", "H1", "H2", "HT", "HA"] if self.p != "tracked" else ["HT", "HT", "HA", "H1"])
+        if self.p in ("flags", "flags_recycle") and self.r.random() < 0.4:
+            cls = "HD"     # its destructor applies a gate to its qubit: a measured dq makes the death itself a misuse
+        need = NEED[cls]
         if self.nq + need > self.max_qubits + 2:
             cls, need = "HT", 1
             if self.nq + need > self.max_qubits + 2:
@@ -289,7 +324,7 @@ class Gen:
         name, cls = self.r.choice(objs)
         objs.remove((name, cls))
         # destroyed qubits are recycled by later allocations
-        self.nq -= {"H1": 3, "HT": 1, "H2": 4}[cls]
+        self.nq -= NEED[cls]
         return dict(k="destroy", name=name)
 
     def stmt_alias(self):
@@ -343,7 +378,7 @@ class Gen:
 
     def stmt_measure_reg(self):
         regs = self.visible("regs")
-        objs = [o for o in self.visible("objs") if o[1] == "H1"]
+        objs = [o for o in self.visible("objs") if o[1] in REGFIELD]
         cands = [("reg", n) for n, _ in regs] + [("freg", n) for n, _ in objs]
         if not cands:
             return None
@@ -352,11 +387,12 @@ class Gen:
             n = dict(regs)[name]
             keys = [("r", name, i) for i in range(n)]
         else:
-            keys = [("o", name, "qs", 0), ("o", name, "qs", 1)]
+            fld, n = REGFIELD[dict(objs)[name]]
+            keys = [("o", name, fld, i) for i in range(n)]
         if not getattr(self, "misusing", False) and any(k in self.pm for k in keys):
             return None
         self.pm.update(keys)
-        return dict(k="measure_reg", kind=kind, name=name)
+        return dict(k="measure_reg", kind=kind, name=name, field=fld if kind != "reg" else None)
 
     def stmt_reset(self):
         qs = self.pick_q(1, allow_measured=True)
@@ -509,7 +545,7 @@ def render_qref(q):
         return "%s[%d + k1 - 1]" % (reg, i)
     if t == "ei":
         return "%s[%s]" % (q[1], q[2])
-    if t == "f":
+    if t in ("f", "s"):
         return "%s.%s" % (q[1], q[2])
     if t == "fe":
         return "%s.%s[%d]" % (q[1], q[2], q[3])
@@ -595,7 +631,7 @@ class Renderer:
             if s["kind"] == "reg":
                 self.emit(ind, "measure %s;" % s["name"], s)
             else:
-                self.emit(ind, "measure %s.qs;" % s["name"], s)
+                self.emit(ind, "measure %s.%s;" % (s["name"], s.get("field") or "qs"), s)
         elif k == "reset":
             if s["via"] == "direct":
                 self.emit(ind, "reset %s;" % render_qref(s["q"]), s)
@@ -805,6 +841,8 @@ class Model:
             return self.lookup(q[1])[1][q[2]]
         if t == "ei":
             return self.lookup(q[1])[1][self.lookup(q[2])[1]]
+        if t == "s":
+            return self.statics["%s.%s" % (q[1], q[2])]
         if t == "f":
             return self.lookup(q[1])[1].q[q[2]]
         if t == "fe":
@@ -874,13 +912,31 @@ class Model:
         inst.dead = True
         want = set(inst.all_indices())
         tracked_expect = []
+        if inst.cls == "HD":
+            # the user destructor runs first: h(this.dq)
+            idx = inst.q["dq"]
+            self.op_guard(idx, HELPER_LINE["HD.dtor"], "destructor h")
+            self.expect_sim("h", idx, what=" [HD destructor]")
+            self.state.gate("h", idx, 0.0)
+            self.check_state("h q%d in destructor" % idx)
         if inst.cls == "HT":
             idx = inst.q["tq"]
             tracked_expect.append(("HT.tq", self.outcome_str([idx])))
+        if inst.cls == "HA":
+            tracked_expect.append(("HA.ta", self.outcome_str(list(inst.q["ta"]))))
         got = set()
         while len(got) < len(want):
             e = self.next_event(("sim", "tracked"))
             if e is None:
+                nxt = self.peek_kind()
+                if nxt is not None and nxt["k"] == "qfree" and nxt["idx"] in want - got:
+                    # released without the implicit reset: the property's "leaves q in |0>" is decidable
+                    # from the reference state
+                    p1 = self.state.p1(nxt["idx"])
+                    if p1 > TOL:
+                        self.report("C04", "reset:released-without-reset",
+                                    "qubit %d of a destroyed %s was released without a reset while it is "
+                                    "|1> with probability %r" % (nxt["idx"], inst.cls, p1))
                 self.report("C03", "release:missing", "object %s destroyed but qubits %s were not "
                             "released" % (inst.cls, sorted(want - got)))
                 raise Mismatch("C03", "release:missing", path)
@@ -973,13 +1029,23 @@ class Model:
                 nxt = self.ev[p] if p < len(self.ev) else None
             if nxt is not None and nxt["k"] == "sim" and nxt["op"] == "reset":
                 for inst in pending:
-                    if nxt["q0"] in inst.all_indices():
+                    if nxt["q0"] in inst.all_indices() and not (
+                            inst.cls == "HD" and not inst.dead):
+                        chosen = inst
+                        break
+            if nxt is not None and nxt["k"] == "sim" and nxt["op"] == "h":
+                for inst in pending:
+                    if inst.cls == "HD" and inst.q["dq"] == nxt["q0"]:
                         chosen = inst
                         break
             if chosen is None:
                 break
             pending.remove(chosen)
             self.release(chosen, "scope-exit")
+        for inst in pending:
+            if inst.cls == "HD" and inst.q["dq"] in self.measured:
+                # its destructor cannot run h on a measured qubit: the run stops here
+                raise StopRun(HELPER_LINE["HD.dtor"], "destructor h touches measured qubit %d" % inst.q["dq"])
         for inst in pending:
             if inst.all_indices():
                 self.report("C03", "release:missing", "object %s went out of scope but its qubits "
@@ -1001,6 +1067,8 @@ class Model:
             raise StopRun(line, "%s touches measured qubit %d" % (what, idx))
 
     def run(self, ir):
+        # static qubit fields are allocated when the run starts, before main's first statement
+        self.statics = {"HS.sq": self.alloc("static HS.sq")}
         self.push()
         try:
             for s in ir:
@@ -1062,7 +1130,7 @@ class Model:
             if s["kind"] == "reg":
                 ix = self.lookup(s["name"])[1]
             else:
-                ix = self.lookup(s["name"])[1].q["qs"]
+                ix = self.lookup(s["name"])[1].q[s.get("field") or "qs"]
             for idx in ix:
                 self.op_guard(idx, s["line"], "measure register")
                 self.measure(idx)
@@ -1120,6 +1188,10 @@ class Model:
             inst.q["qs"] = [self.alloc("%s.qs[%d]" % (name, i)) for i in range(2)]
         elif cls == "HT":
             inst.q["tq"] = self.alloc("%s.tq" % name)
+        elif cls == "HA":
+            inst.q["ta"] = [self.alloc("%s.ta[%d]" % (name, i)) for i in range(3)]
+        elif cls == "HD":
+            inst.q["dq"] = self.alloc("%s.dq" % name)
         elif cls == "H2":
             # fields are laid out in declaration order: inner (object), then z
             inst.q["z"] = self.alloc("%s.z" % name)
